@@ -560,6 +560,18 @@ def est_part(pid, tier, seed, rnd):
                         states=tcov.get("states", 0), transitions=tcov.get("transitions", 0))
         states += resolver["states"]
         transitions += resolver["transitions"]
+    if pid == "C04":
+        # wake-ups during name resolution and multi-address connect (timers, several tracks): the C13 harness in virtual
+        # time; its hang verdicts (spec/TConnectTrace.tla: C13.hang) are lost wake-ups of the event-loop contract
+        import check_c13
+        tv, tknown, tcov = check_c13.check("C04", tier, seed, as_c04=True)
+        violations.extend(tv)
+        notes.extend("KNOWN " + k for k in tknown)
+        resolver = dict(executions=tcov.get("traces_validated_against_impl", 0), api_calls=tcov.get("evaluations", 0),
+                        states=tcov.get("states", 0), transitions=tcov.get("transitions", 0),
+                        mismatch_classes=tcov.get("mismatch_classes", {}))
+        states += resolver["states"]
+        transitions += resolver["transitions"]
     cov = dict(states=states, transitions=transitions, model_configurations=summary, executions=st["executions"] - st["setup_failed"] + resolver.get("executions", 0),
                resolver_phase=resolver,
                api_calls=st["api_calls"], api_calls_answered_eagain=st["calls_not_ready"], executions_by_scenario=st["by_scenario"],
